@@ -17,7 +17,10 @@ EXPLANATION = (
     "the table's rcode constant; Catalog: EDNS version > 0 BADVERS before dispatch, Query->lookup, Update->update, other opcode "
     "NOTIMP, no zone REFUSED. (S1) every response Metadata derives from the request's id/opcode "
     "(response_from_request / Metadata::new(request id,...)) and the builder echoes the request's queries. (G1) Catalog::find "
-    "tries the exact name and otherwise recurses on base_name() unless root (first hit = longest enclosing origin).")
+    "tries the exact name and otherwise recurses on base_name() unless root (first hit = longest enclosing origin). (H) the ACL decision "
+    "AccessControl::allow / InnerAccessControl::allow equals its table (longest-prefix match on both lists; allow wins only if more specific). "
+    "(L1) UdpStream::poll_next: once poll_send_to has completed, the reply leaves the queue before the poll ends in anything but Pending (an "
+    "undeliverable reply cannot wedge the UDP listener).")
 NOT_DECIDED = ("Behaviour under handler panics and task cancellation (panic census of the front door is part of C01's cone), that "
                "AccessControl::allow implements longest-prefix semantics on values, ZoneHandler implementations' answers (C10), "
                "TLS/HTTPS/QUIC front ends (not in any analysed configuration).")
